@@ -285,6 +285,9 @@ class PX:
             return ('elem', self.read_opt(st, base_pl), idx)
         if k == 'T':
             return ('slice', pl)
+        if k == 'PK':
+            # the `&&[u8]` a Peekable hands out: it points at the element reference
+            return ('ref', ('T', pl[1], pl[2]))
         if k == 'B1':
             return ('byte', pl, 0, ())
         if k == 'S':
@@ -380,6 +383,9 @@ class PX:
         k = pl[0]
         if k == 'L':
             st.frames[pl[1]][pl[2]] = val
+            if span is not None and self.mentions_tiny(val):
+                # a validated subtag (or a structure holding one) assigned to a whole local: parsers keep their slots in locals
+                st.events.append(('lstore', pl, val, span))
             return
         root = pl
         path = []
@@ -412,6 +418,18 @@ class PX:
             del st.store[key]
         st.store[pl] = val
         st.events.append(('store', pl, val, span))
+
+    @staticmethod
+    def mentions_tiny(v, depth=0):
+        if not isinstance(v, tuple) or depth > 5 or not v:
+            return False
+        if v[0] == 'tiny':
+            return True
+        if v[0] == 'adt':
+            return any(PX.mentions_tiny(x, depth + 1) for x in v[3])
+        if v[0] == 'tuple':
+            return any(PX.mentions_tiny(x, depth + 1) for x in v[1])
+        return False
 
     @staticmethod
     def is_prefix(a, b):
@@ -799,7 +817,7 @@ class PX:
             if top and bi in loops:
                 # loop cut: abstract the loop-modified locals, finish the segment, continue from the header node once
                 pre_facts, pre_shapes = dict(st.facts), dict(st.shapes)
-                key = self.cut(st, fid, bi, modified[bi], mir)
+                key = self.cut(st, fid, bi, modified[bi], mir, live.get(bi, set()))
                 node = ('head', bi, key)
                 self.segments.append(Segment(src, node, st, None, st.events[ev0:], 'loop', pre_facts, pre_shapes))
                 if node in self.seen_nodes:
@@ -930,26 +948,41 @@ class PX:
             return ('tuple', tuple(self.abstract(st, x, key + (i,), depth + 1) for i, x in enumerate(v[1])))
         if k in ('zst',) or v == UNIT:
             return v
+        if k in ('peekres', 'nextres') and (v[1], v[2]) in getattr(self, '_remap', {}):
+            # the token cell of a parser loop: the element looked at (peek) / just taken (next) keeps its identity across the cut
+            which = self._remap[(v[1], v[2])][2]
+            return ('atok', k, v[1], 'cur' if which == 1 else 'last', self.tag_of(st, v))
         t = None
         if k in ('cf', 'map_err', 'ok', 'call', 'pure', 'peekres', 'nextres', 'lv', 'init', 'pos'):
             t = self.tag_of(st, v)
         return ('lv', key, t)
 
-    def cut(self, st, fid, header, modified, mir):
+    def cut(self, st, fid, header, modified, mir, live=()):
         env = st.frames[fid]
         keyparts = []
         carried_tags = []
-        for l in sorted(modified):
-            if l not in env:
+        # iterator cursors get fresh element ids; the element under the cursor and the one just consumed are remapped (not forgotten)
+        self._remap = {}
+        newcur = {}
+        for it in list(st.iters):
+            cur = st.iters[it]['k']
+            U = st.uid()
+            self._remap[(it, cur)] = ('e', U, 1)
+            self._remap[(it, ('e', cur[1], cur[2] - 1))] = ('e', U, 0)
+            newcur[it] = ('e', U, 1)
+        self._newcur = newcur
+        for l in sorted(set(modified) | set(live)):
+            if l not in env or l <= 0:
                 continue
             a = self.abstract(st, env[l], (l,))
+            # the head node is identified by the abstract value of every live local; only the loop-modified ones are forgotten
             keyparts.append((l, self.strip_uids(a)))
-            env[l] = self.instantiate(st, a, carried_tags)
+            if l in modified:
+                env[l] = self.instantiate(st, a, carried_tags)
         # opaque-rooted store entries written so far stay (they are keyed by entry places); facts on fresh terms
         # of earlier iterations are harmless (uids are never reused).  Iterator cursors are abstracted:
         for it in list(st.iters):
-            cur = st.iters[it]
-            st.iters[it] = {'k': ('e', st.uid(), 0), 'peeked': None}
+            st.iters[it] = {'k': newcur[it], 'peeked': None}
         # facts and shapes about values of earlier iterations are dropped: nothing can refer to them any more (loop-carried
         # locals were replaced by fresh 'lv' terms, iterator cursors by fresh element ids)
         st.facts = {a: b for a, b in st.facts.items() if self.is_persistent(a)}
@@ -968,6 +1001,8 @@ class PX:
         if isinstance(a, tuple):
             if a and a[0] == 'lv':
                 return ('lv', a[1], a[2])
+            if a and a[0] == 'atok':
+                return a
             return tuple(self.strip_uids(x) for x in a)
         return a
 
@@ -976,6 +1011,13 @@ class PX:
             v = ('lv', a[1], st.uid())
             if a[2] is not None:
                 carried.append((v, a[2]))
+            return v
+        if isinstance(a, tuple) and a and a[0] == 'atok':
+            it = a[2]
+            el = self._newcur[it] if a[3] == 'cur' else ('e', self._newcur[it][1], 0)
+            v = (a[1], it, el)
+            if a[4] is not None:
+                carried.append((('has', it, el), a[4]))
             return v
         if isinstance(a, tuple) and a and a[0] == 'adt':
             return ('adt', a[1], a[2], tuple(self.instantiate(st, x, carried) for x in a[3]))
@@ -1013,6 +1055,15 @@ class PX:
         return self.opaque_call(st, name, t, args, effects=True)
 
     def opaque_call(self, st, name, t, args, effects=True):
+        if effects and name in self.p.bodies:
+            # a repository function that receives an iterator may consume any number of elements: fresh cursor afterwards
+            for a in args:
+                try:
+                    it = self.models.iter_id(self, st, a)
+                except Exception:
+                    it = None
+                if it is not None and it in st.iters:
+                    st.iters[it] = {'k': ('e', st.uid(), 0)}
         if effects:
             for i, a in enumerate(args):
                 # a &mut argument may be written through: havoc the pointee (type-directed: declared arg type unknown here,
